@@ -775,8 +775,10 @@ func (h cachedHistogram) ValueBucket(
 	)
 
 	return reportSamplesFunc(func(value int64) {
-		m.Value.Count = value
-		rep.reportCopyMetric(m, size, bucket, bucketID)
+		// Copy per call: the handle may be used from several goroutines.
+		mc := m
+		mc.Value.Count = value
+		rep.reportCopyMetric(mc, size, bucket, bucketID)
 	})
 }
 
@@ -806,8 +808,10 @@ func (h cachedHistogram) DurationBucket(
 	)
 
 	return reportSamplesFunc(func(value int64) {
-		m.Value.Count = value
-		rep.reportCopyMetric(m, size, bucket, bucketID)
+		// Copy per call: the handle may be used from several goroutines.
+		mc := m
+		mc.Value.Count = value
+		rep.reportCopyMetric(mc, size, bucket, bucketID)
 	})
 }
 
